@@ -248,6 +248,7 @@ def run(ck: Checker, prog: Program, tier: str):
     from . import c09
     with ck.borrow(c09, "C15.R5+"):
         ck.guard(c09._entry_effects, ck, prog, ("R2a", "R2b"))
+        ck.guard(c09._r2c, ck, prog)        # ... and into a private deep copy: the caller's object keeps matching its saved file
     ck.extra["calls_resolved"] = eng.calls_resolved
 
 
